@@ -231,6 +231,11 @@ func VerifC12_owners() {
 	if grow+1 > 10 {
 		vfTag("grown-past-capacity")
 	}
+	// columns created by the growth are owners of their own: they start without properties, whatever
+	// the defaults column (or any other owner) holds
+	for i := 3; i <= grow; i++ {
+		vfAssert(t.Column(i).GetProperty(key) == nil, "new-column-starts-without-properties")
+	}
 	key2 := &vfKeyT{21}
 	h1.SetProperty(key2, 8)
 	h0.SetProperty(key2, 9)
